@@ -85,10 +85,28 @@ fn kind_decl(kind: usize, g: u32, b: u32, name: &str) -> String {
     }
 }
 
-fn shader(pairs: &[(u32, u32)], kinds: &[usize], entry: usize) -> String {
+/// `rts_at`: that variable is a storage buffer whose struct type ends in a runtime-sized array (the library documents a
+/// panic for it under some options); `unbound`: declarations without @group/@binding, inserted in front of the variable
+/// with that index (index == pairs.len(): at the end).
+fn shader(pairs: &[(u32, u32)], kinds: &[usize], entry: usize, rts_at: Option<usize>, unbound: &[(usize, &str)]) -> String {
     let mut s = String::new();
+    if rts_at.is_some() {
+        s.push_str("struct Particles { count: u32, items: array<vec4<f32>> }\n");
+    }
     for (i, (g, b)) in pairs.iter().enumerate() {
-        s.push_str(&kind_decl(kinds[i], *g, *b, &format!("v{i}")));
+        for (_, d) in unbound.iter().filter(|(at, _)| *at == i) {
+            s.push_str(d);
+            s.push('\n');
+        }
+        if rts_at == Some(i) {
+            s.push_str(&format!("@group({g}u) @binding({b}u) var<storage, read_write> v{i}: Particles;\n"));
+        } else {
+            s.push_str(&kind_decl(kinds[i], *g, *b, &format!("v{i}")));
+            s.push('\n');
+        }
+    }
+    for (_, d) in unbound.iter().filter(|(at, _)| *at >= pairs.len()) {
+        s.push_str(d);
         s.push('\n');
     }
     match entry % 3 {
@@ -99,12 +117,20 @@ fn shader(pairs: &[(u32, u32)], kinds: &[usize], entry: usize) -> String {
     s
 }
 
+const UNBOUND_DECLS: [&str; 5] = [
+    "var<private> acc_priv: vec4<f32>;",
+    "var<workgroup> tile: array<f32, 64>;",
+    "var<push_constant> pc: vec4<f32>;",
+    "var<private> counter: u32 = 0u;",
+    "var<workgroup> flag: atomic<u32>;",
+];
+
 impl Property for C11 {
     fn id(&self) -> &'static str {
         "C11"
     }
     fn rule(&self) -> &'static str {
-        "Shaders declaring resource variables for a list of (@group,@binding) pairs: all sequences of length 0-3 (quick) / 0-4 (thorough) over groups {0,1,2} x bindings {0,1}, plus seeded random lists of length 1-9 with gaps, groups not starting at 0, non-adjacent duplicates, unordered declarations and u32 extremes (4294967295), plus lists with 11-16 dense groups (two-digit group indices; also with one group missing or a repeated slot in a group >= 10), mixed resource kinds, each with validation off and on; oracle = direct evaluation on the pair list read from the shader text: first repeated pair -> Err(DuplicateBinding{its binding}) (or the validator's error when validation is on), else groups != 0..n-1 -> Err(NonConsecutiveBindGroups), else Ok with every declared binding exactly once in its own group's LAYOUT_DESCRIPTOR and from_bindings under its own variable name; never a panic."
+        "Shaders declaring resource variables for a list of (@group,@binding) pairs: all sequences of length 0-3 (quick) / 0-4 (thorough) over groups {0,1,2} x bindings {0,1}, plus seeded random lists of length 1-9 with gaps, groups not starting at 0, non-adjacent duplicates, unordered declarations and u32 extremes (4294967295), plus lists with 11-16 dense groups (two-digit group indices; also with one group missing or a repeated slot in a group >= 10), mixed resource kinds, each with validation off and on; every 4th list again with 1-2 var<private>/var<workgroup>/var<push_constant> declarations between the resource variables, every 5th list again with one variable being a storage struct ending in a runtime-sized array under default options / encase+bytemuck (struct generation panics by design: with a numbering fault the typed error must still come back) / encase alone; oracle = direct evaluation on the pair list read from the shader text: first repeated pair -> Err(DuplicateBinding{its binding}) (or the validator's error when validation is on), else groups != 0..n-1 -> Err(NonConsecutiveBindGroups), else Ok with every declared binding exactly once in its own group's LAYOUT_DESCRIPTOR and from_bindings under its own variable name; never a panic."
     }
 
     fn cases(&self, seed: u64, tier: Tier) -> Vec<Case> {
@@ -201,9 +227,50 @@ impl Property for C11 {
         for (k, (name, l)) in lists.iter().enumerate() {
             let mut rng = Rng::new(seed, 0xC11_F000 + k as u64);
             let kinds: Vec<usize> = l.iter().map(|_| rng.below(7)).collect();
-            let wgsl = shader(l, &kinds, rng.below(3));
+            let entry = rng.below(3);
+            let wgsl = shader(l, &kinds, entry, None, &[]);
             for v in [false, true] {
                 out.push(Case::new(format!("{name}/validate={v}"), wgsl.clone(), Params::default().validated(v)));
+            }
+            if l.is_empty() {
+                continue;
+            }
+            // the same list with 1-2 variables WITHOUT a resource binding between the resource variables
+            if k % 4 == 1 {
+                let mut rng = Rng::new(seed, 0xC11_E000 + k as u64);
+                let mut ub: Vec<(usize, &str)> = vec![(rng.below(l.len()), *rng.pick(&UNBOUND_DECLS))];
+                if rng.chance(1, 2) {
+                    let d = *rng.pick(&UNBOUND_DECLS);
+                    if d != ub[0].1 {
+                        ub.push((rng.below(l.len() + 1), d));
+                    }
+                }
+                let wgsl = shader(l, &kinds, entry, None, &ub);
+                let v = k % 8 == 1;
+                out.push(Case::new(format!("{name}/unbound={}/validate={v}", ub.len()), wgsl, Params::default().validated(v)));
+            }
+            // the same list with one variable being a storage struct that ends in a runtime-sized array, under options for
+            // which struct generation panics by design (default: no encase; encase + bytemuck) and under encase alone
+            if k % 5 == 2 {
+                let mut rng = Rng::new(seed, 0xC11_D000 + k as u64);
+                let at = rng.below(l.len());
+                let wgsl = shader(l, &kinds, entry, Some(at), &[]);
+                let mode = rng.below(3);
+                let mut opts = WriteOptions::default();
+                match mode {
+                    0 => {}
+                    1 => {
+                        opts.derive_encase_host_shareable = true;
+                        opts.derive_bytemuck_host_shareable = true;
+                    }
+                    _ => opts.derive_encase_host_shareable = true,
+                }
+                let v = rng.chance(1, 3);
+                let mut p = Params::with_opts(opts).validated(v);
+                if rng.chance(1, 3) {
+                    p.include = None;
+                }
+                out.push(Case::new(format!("{name}/rts-struct@{at}/opts={mode}/validate={v}"), wgsl, p));
             }
         }
         out
@@ -231,6 +298,8 @@ impl Property for C11 {
         let mut o = Outcome::default();
         let want_text = format!("{want:?}{}", if validation_fails { " or the validator's error" } else { "" });
         match (&got, &want) {
+            // correct numbering: the library's documented panic for an unsupported struct / option combination is not C11's
+            (LibResult::Panic(m), Expect::Ok) if super::c03::is_documented_panic(m) => return Outcome::skip(format!("unsupported input: {m}")),
             (LibResult::Panic(m), _) => o.fail(case, "never panics", want_text, format!("panic: {m}")),
             (LibResult::Err(ErrKind::Validation, _), _) if validation_fails => {}
             (LibResult::Err(ErrKind::Duplicate(b), _), Expect::Duplicate(wb)) if b == wb && !validation_fails => {}
